@@ -67,13 +67,16 @@ def families(quick):
     # fees.DEFAULT_CONSTANTS while taking the limit from the node; the repaired code prices the limit it sets, so these families hold now).
 
 
-def observe(kinds, key_kind, mode, sim_ix, chain, hard_gas, hard_storage, via_bulk=False, gas_reserve=None, again=False):
+def observe(kinds, key_kind, mode, sim_ix, chain, hard_gas, hard_storage, via_bulk=False, gas_reserve=None, again=False, pending=0):
     """Real fill()/autofill() against FakeNode -> dict(fees, gases, storages, counters, forged, size, signed)."""
     from ..fakenode import DecodeError, decode_manager_group
     from ..opclient import add_content, make_client, make_key
     key = make_key(key_kind)
     client, node = make_client(key, chain_ctr=chain, constants={'hard_gas_limit_per_operation': str(hard_gas),
                                                                'hard_storage_limit_per_operation': str(hard_storage)})
+    for j in range(pending):
+        # operations of the account already waiting in the mempool (calls of the very contract the group calls): they move the counter, not the price
+        add_content(client, 'transaction_kt', 0).autofill().sign().inject()
     g = client
     if via_bulk:
         # every content has been a group of its own and was autofilled (a cost preview) before the groups are batched: the batch is
@@ -147,9 +150,10 @@ def judge(ctx, st, obs, case):
     need = -(-(100000 + 1000 * size + 100 * gas) // 1000)
     detail = ('%s of %s signed by %s (simulation %s): total fee %d mutez < node minimum %d = 100 + %d bytes + ceil(%d gas / 10)'
               % (case['mode'], case['kinds'], case['key'], case['sim'], fee, need, size, gas))
-    if 'gas_reserve' in case or case.get('again'):
-        ctx.mismatch('C24:%s' % ('autofill-with-gas_reserve' if 'gas_reserve' in case else 'second-autofill-of-a-priced-group'), detail + '\n(%s)' % (
-            'gas_reserve=%s' % case.get('gas_reserve') if 'gas_reserve' in case else 'autofill() of the group autofill() returned, the second simulation consuming more'), case)
+    if 'gas_reserve' in case or case.get('again') or case.get('pending'):
+        ctx.mismatch('C24:%s' % ('autofill-with-gas_reserve' if 'gas_reserve' in case else 'autofill-with-pending-operations' if case.get('pending') else 'second-autofill-of-a-priced-group'), detail + '\n(%s)' % (
+            'gas_reserve=%s' % case.get('gas_reserve') if 'gas_reserve' in case else '%d operation(s) of the account pending in the mempool' % case['pending'] if case.get('pending') else
+            'autofill() of the group autofill() returned, the second simulation consuming more'), case)
     elif model_same and limits_same and m['cls'] in CLASSES:
         ctx.mismatch('C24:' + m['cls'], detail + '\n(OpFees.tla: the as-coded computation gives exactly this fee; class %s)' % m['cls'], case)
     else:
@@ -163,7 +167,7 @@ def replay_state(ctx, st, f):
     judge(ctx, st, obs, case)
     if case['mode'] == 'autofill' and len(case['kinds']) <= 2 and case['key'] in ('tz1', 'tz4'):
         # the caller's knobs: other gas reserves than the default, and a second pass over an already priced group; the node's rule is judged on what comes out
-        for kw in ({'gas_reserve': 0}, {'gas_reserve': 7}, {'gas_reserve': 1000}, {'again': True}):
+        for kw in ({'gas_reserve': 0}, {'gas_reserve': 7}, {'gas_reserve': 1000}, {'again': True}) + (({'pending': 1}, {'pending': 3}) if case['key'] == 'tz1' else ()):
             obs3 = observe(case['kinds'], case['key'], case['mode'], case['sim'], case['chain'], f['hard_gas'], f['hard_storage'], **kw)
             ctx.count(('knob', tuple(kw.items())) + tuple(case['kinds']) + (case['key'], tuple(case['sim']), f['hard_gas']), nontrivial=True)
             judge(ctx, {'out': dict(st['out'], cls='with-caller-knobs')}, obs3, dict(case, **kw))
